@@ -204,7 +204,7 @@ Definition advance_frame (c:rcfg) (s:rst) : adv * rst :=
 
 Inductive rop :=
 | ONext                (* NextReader *)
-| ORead (m:nat)        (* Read(p), len(p) = m > 0, on the reader returned by the last NextReader *)
+| ORead (m:nat)        (* Read(p), len(p) = m (m = 0 allowed), on the reader returned by the last NextReader *)
 | OReadStale (m:nat)   (* Read on the reader returned by an earlier NextReader *)
 | OReadMessage         (* ReadMessage *)
 | OSetLimit (l:N).     (* SetReadLimit *)
@@ -248,7 +248,12 @@ Definition next_reader (c:rcfg) (s:rst) : rout * rst :=
     else (RNext 0 (rerror s), s)
   end.
 
-(* messageReader.Read(b), len(b) = m, on the current reader *)
+(* messageReader.Read(b), len(b) = m, on the current reader.
+   m = 0 is allowed and follows the Go code literally: when 0 < readRemaining the slice b[:0] is
+   passed to bufio ([br_read 0]: (0, nil), or (0, pending error) when nothing is buffered; the
+   transport is not touched), maskBytes on the empty slice returns pos & 3, readRemaining is
+   unchanged, c.readErr = err with the io.EOF -> unexpected-EOF mapping; when readRemaining = 0
+   the call advances frames / reports io.EOF like any other Read.  See Proofs/ZeroReadP.v. *)
 Fixpoint read_loop (fuel:nat) (c:rcfg) (m:nat) (s:rst) : bytes * option rerr * rst :=
   match rerror s with
   | Some e =>
